@@ -79,6 +79,8 @@ def ref_bb(cap, evs):
         elif ev[0] == "a":
             k = establish(ev[1:])
             out.append((k, True) + sessions[k] + (None,))
+        elif ev[0] == "e":
+            pass        # a carrier ends: nothing is forgotten, nothing is re-attributed (C18_carrier_end_changes_nothing)
         elif ev[0] == "b":
             # a burst: no carrier starts during it, so every session of it is established against the same map
             # contents; peers = what the OTHER sessions of the burst are entitled to
@@ -135,7 +137,7 @@ def analyse(line, impl):
                 kind = {"a": "absent", "u": "unparsable"}.get(a[3], "unspecified")
                 return ("sanitise-accepts-" + kind, "clientAddr gave %r for an %s client_ip" % (bytes.fromhex(impl[1:]), kind))
             return ("sanitise-render", "clientAddr gave %r, expected %r" % (bytes.fromhex(impl[1:]), bytes.fromhex(want[1:])))
-    elif op in ("bb", "bb0", "burst"):
+    elif op in ("bb", "bb0", "bbe", "burst"):
         cap = int(a[2])
         evs = a[3].split(",")
         exp = ref_bb(cap, evs)
@@ -421,6 +423,85 @@ def gen_bb(ctx, exe):
     return lines, kinds
 
 
+def gen_bbe(ctx, exe):
+    """histories with carrier END events (e<k>: the k-th carrier ends) at every point: before / after the session of the
+    ClientID is established, the older or the newer of two overlapping carriers of one ClientID, client_ip values that
+    are the same text, different texts with the same sanitised address, or different addresses; small maps, so that an
+    entry written at a carrier's end would also push another ClientID out. A session is established over the oldest
+    open unused carrier of its ClientID; a further stream is only opened on a session whose carrier is still open."""
+    rng = ctx.rng
+    ips = ["", "4.4.4.4", "::ffff:4.4.4.4", "5.6.7.8", "2001:db8::1", "garbage"]
+    parsed = dict(zip(ips, parse_all(exe, ips)))
+    ids = IDS[:4]
+
+    def carrier(i, s):
+        return "c%s:%s:%s" % (i, hx(s), parsed[s])
+    A = "4.4.4.4"
+    scen = []
+    for X in (A, "::ffff:4.4.4.4", "5.6.7.8", ""):
+        c0, c1 = carrier(ids[1], A), carrier(ids[1], X)
+        for cap in ((1, 2, 4) if ctx.tier == "thorough" else (1, 3)):
+            scen += [
+                (cap, [c0, c1, "e0", "a" + ids[1]]),                       # the older of two ends, then the session starts (on the newer)
+                (cap, [c0, c1, "e1", "a" + ids[1]]),                       # the newer ends, the session starts on the older
+                (cap, [c0, c1, "a" + ids[1], "e1", "t0"]),                 # established on the older, the unused newer ends
+                (cap, [c0, c1, "a" + ids[1], "e0", "a" + ids[1]]),         # the session's carrier ends, a new session on the newer
+                (cap, [c0, "a" + ids[1], c1, "e0", "a" + ids[1]]),
+                (cap, [c0, "e0", c1, "a" + ids[1]]),                       # ended before the next one starts
+                (cap, [c1, c0, "e0", "a" + ids[1]]),
+                (cap, [c0, c1, c0, "e0", "e1", "a" + ids[1]]),             # three, the two older end
+                (cap, [c0, c1, c0, "e1", "a" + ids[1], "e2", "t0"]),
+            ]
+        # another ClientID in a small map: an end must not use up a slot / evict / re-attribute
+        o = carrier(ids[2], "5.6.7.8")
+        for cap in (2, 3):
+            scen += [
+                (cap, [c0, o, c1, "e0", "a" + ids[2], "a" + ids[1]]),
+                (cap, [o, c0, c1, "e0", "e1", "a" + ids[1]]),
+                (cap, [c0, c1, o, "e0", "e1", "a" + ids[2]]),
+                (cap, [o, c0, "a" + ids[2], c1, "e1", "t0", "a" + ids[1], "e0"]),
+            ]
+    for n in range(200 if ctx.tier == "thorough" else 24):
+        cap = rng.choice([1, 2, 2, 3, 5])
+        pool = ids[:rng.choice([1, 2, 3])]
+        ipof = {i: rng.choice(ips) for i in pool}           # a client mostly keeps its address
+        evs, ncar, open_unused, open_all, sess_car, nsess = [], 0, {i: [] for i in pool}, set(), [], 0
+        for _ in range(rng.choice([5, 8, 12])):
+            r = rng.random()
+            can_a = [i for i in pool if open_unused[i]]
+            latest = {i: k for k, (c, i) in enumerate(sess_car)}      # only the latest session of a ClientID is live in kcp-go
+            can_t = [k for k, (c, i) in enumerate(sess_car) if c in open_all and latest[i] == k]
+            if open_all and r < 0.3:
+                k = rng.choice(sorted(open_all))
+                open_all.discard(k)
+                for l in open_unused.values():
+                    if k in l:
+                        l.remove(k)
+                evs.append("e%d" % k)
+            elif can_a and r < 0.55:
+                i = rng.choice(can_a)
+                sess_car.append((open_unused[i].pop(0), i))
+                evs.append("a" + i)
+            elif can_t and r < 0.65:
+                k = rng.choice(can_t)
+                evs.append("t%d" % k)
+            else:
+                i = rng.choice(pool)
+                evs.append(carrier(i, ipof[i] if rng.random() < 0.7 else rng.choice(ips)))
+                open_unused[i].append(ncar)
+                open_all.add(ncar)
+                ncar += 1
+        for i in pool:
+            if open_unused[i]:
+                sess_car.append((open_unused[i].pop(0), i))
+                evs.append("a" + i)
+        if any(e[0] == "a" for e in evs) and any(e[0] == "e" for e in evs):
+            scen.append((cap, evs))
+    lines = ["%s bbe %d %s" % (AREA, cap, ",".join(evs)) for cap, evs in scen]
+    kinds = ["bbe-cap%d-carrier-ends" % cap for cap, evs in scen]
+    return lines, kinds
+
+
 def gen_burst(ctx, exe):
     """k = 2..16 sessions of distinct clients (distinct ClientIDs and client_ip values, one of them without an
     address) whose first packets reach the KCP listener together, so that acceptSessions accepts them back to back
@@ -701,6 +782,8 @@ def run(ctx):
     ctx.correspond(exe, lines, kinds, label="clientAddr", prop=prop, key_of=key_of, impl_args=IMPL_ARGS, crosscheck=25)
     lines, kinds = gen_bb(ctx, exe)
     ctx.correspond(exe, lines, kinds, label="listener-attribution", prop=prop, key_of=key_of, impl_args=IMPL_ARGS, crosscheck=6)
+    lines, kinds = gen_bbe(ctx, exe)
+    ctx.correspond(exe, lines, kinds, label="listener-attribution, carriers ending", prop=prop, key_of=key_of, impl_args=IMPL_ARGS, crosscheck=6)
     lines, kinds = gen_burst(ctx, exe)
     ctx.correspond(exe, lines, kinds, label="listener-burst", prop=prop, key_of=key_of, impl_args=IMPL_ARGS, crosscheck=4)
     step = max(1, len(lines) // (4 if ctx.tier == "quick" else 20))
